@@ -73,7 +73,18 @@ func (fillPayloader) Payload(mtu uint16, payload []byte) [][]byte {
 	return out
 }
 
-var c06PayloaderNames = []string{"g711", "g722", "opus", "h264", "h265", "vp8", "vp9-flex", "vp9-nonflex", "av1", "fill-budget"}
+// quietPayloader splits like G711 but returns no fragment at all for inputs
+// that start with 0xEE (like a video payloader that swallows a unit).
+type quietPayloader struct{}
+
+func (quietPayloader) Payload(mtu uint16, payload []byte) [][]byte {
+	if len(payload) > 0 && payload[0] == 0xEE {
+		return nil
+	}
+	return (&codecs.G711Payloader{}).Payload(mtu, payload)
+}
+
+var c06PayloaderNames = []string{"g711", "g722", "opus", "h264", "h265", "vp8", "vp9-flex", "vp9-nonflex", "av1", "fill-budget", "sometimes-silent"}
 
 func c06Payloader(k int) rtp.Payloader {
 	switch k {
@@ -95,8 +106,10 @@ func c06Payloader(k int) rtp.Payloader {
 		return &codecs.VP9Payloader{InitialPictureIDFn: func() uint16 { return 5 }}
 	case 8:
 		return &codecs.AV1Payloader{}
+	case 9:
+		return fillPayloader{}
 	}
-	return fillPayloader{}
+	return quietPayloader{}
 }
 
 // c06Input builds an input the payloader can do something with.
@@ -105,6 +118,22 @@ func c06Input(r *fw.Rand, k int, n int) []byte {
 		n = 1
 	}
 	b := r.Bytes(n)
+	if r.Chance(1, 6) {
+		// an input for which the payloader returns no fragment at all (the call still advances the timestamp)
+		switch k {
+		case 3:
+			return []byte{0x09, 0xF0} // access unit delimiter
+		case 4:
+			return []byte{0x40} // shorter than an HEVC NAL header
+		case 7:
+			return []byte{0x00, 0x01, 0x02} // not a VP9 frame marker
+		case 8:
+			return []byte{0x12, 0x00} // temporal delimiter
+		case 10:
+			b[0] = 0xEE
+			return b
+		}
+	}
 	switch k {
 	case 3: // H264: one NAL unit of type 1-23 without start codes inside
 		b[0] = byte(r.Range(1, 23)) | byte(r.Intn(4))<<5
